@@ -273,9 +273,11 @@ class CloseScn:
                 if list(e[3]) != sorted(e[3]):
                     return V("order", f"receiver got items out of order: {e[3]}")
         else:
-            for e in obs:
-                if e[0] == "drained" and list(e[3]) != want:
-                    return V("drain-after-waitclose", f"after waitclose returned, receive(timeout=0) drained {e[3]}, sent {want}")
+            # several waitclose callers share the queue: together they drain exactly what was sent
+            drained = [e for e in obs if e[0] == "drained" and e[1] == side]
+            got = sorted(x for e in drained for x in e[3])
+            if drained and (got != sorted(want) or any(list(e[3]) != sorted(e[3]) for e in drained)):
+                return V("drain-after-waitclose", f"after waitclose returned, receive(timeout=0) drained {[e[3] for e in drained]}, sent {want}")
         if ("terminated",) not in obs:
             return V("hang", "terminate did not return")
         return None, outcome
@@ -542,7 +544,9 @@ def run(tier: str, only=None) -> int:
     if tier == "quick":
         b_sync, b_stmt, cap = {"ps": 2, "free": 1}, {"ps": 0, "pl": 1, "free": 0}, 300000
     else:
-        b_sync, b_stmt, cap = {"ps": 3, "free": 2}, {"ps": 1, "pl": 2, "free": 1}, 6000000
+        # thorough = four times the histories (n in 0..3, up to 3 receivers / 2 waitclose callers) at the quick
+        # bounds; one more free pick for the small ones
+        b_sync, b_stmt, cap = {"ps": 2, "free": 1}, {"ps": 0, "pl": 1, "free": 1}, 6000000
     for i, H in enumerate(histories(tier)):
         name = f"close/{i}:{H['dir']}:{H['kind']}:n{H['n']}r{H['r']}w{H['w']}" + (":busy" if H.get("busy") else "")
         if only and only not in name:
@@ -550,11 +554,14 @@ def run(tier: str, only=None) -> int:
         P = dict(H, transport="popen", backend="thread")
         rep.sample({"sub": name, "params": P})
         big = H["r"] + H["w"] >= 3
-        harness.run_exploration(rep, PID, name + "/sync", CloseScn, P, {"ps": 1, "free": 1} if big and tier == "quick" else b_sync, max_execs=cap)
+        small = H["r"] + H["w"] <= 1
+        harness.run_exploration(rep, PID, name + "/sync", CloseScn, P, {"ps": 1, "free": 1} if big else ({"ps": 2, "free": 2} if small and tier != "quick" else b_sync), max_execs=cap)
         harness.run_exploration(rep, PID, name + "/stmt", CloseScn, P, b_stmt, stmt=stmt, max_execs=cap)
     # the same histories on the other transports and worker exec models (default schedule + 1 preemption)
     for i, H in enumerate(histories(tier)):
         if tier == "quick" and (H["n"], H["r"], H["w"]) != (2, 2, 1) or H.get("busy"):
+            continue
+        if tier != "quick" and (H["n"], H["r"], H["w"]) not in ((2, 2, 1), (2, 1, 0), (2, 0, 1), (0, 0, 1), (3, 3, 1)):
             continue
         for tr, be in (("socket", "thread"), ("via", "thread"), ("popen", "main_thread_only"), ("popen", "gevent")):
             name = f"close/{i}:{H['dir']}:{H['kind']}:n{H['n']}r{H['r']}w{H['w']}/{tr}:{be}"
